@@ -39,9 +39,10 @@ def generated_family(k):
     import random
     r = random.Random(7919 * (k + 1))
     n_samples = r.choice((1, 2, 2, 3))
-    n_plates = r.randint(2, 5)
-    sizes = [r.choice((1, 1, 2, 2, 3)) for _ in range(n_plates)]
-    while sum(sizes) > 7:
+    big = k >= 32   # larger structures, used by the operations whose path count does not grow factorially
+    n_plates = r.randint(2, 6 if big else 5)
+    sizes = [r.choice((1, 1, 2, 2, 3, 4) if big else (1, 1, 2, 2, 3)) for _ in range(n_plates)]
+    while sum(sizes) > (10 if big else 7):
         sizes[sizes.index(max(sizes))] -= 1
     sizes = [z for z in sizes if z > 0]
     rows = []
@@ -124,7 +125,7 @@ def match_rows(ctx, out, rows, tags):
     return idx, attrs_ok, t
 
 
-def fixture_values(R=10):
+def fixture_values(R=13):
     import random
     out = []
     for seed in (1, 2, 3):
